@@ -1253,6 +1253,8 @@ class Frame(registering.StoriedRegistrar):
 
         frame = self.under #trace down
         while(frame): #while not below bottom
+            if frame in outline: #primary unders lead back into the outline
+                raise excepting.ResolveError("Outline unders create loop", self.name, frame.name)
             outline.append(frame)
             frame = frame.under
 
